@@ -27,7 +27,7 @@ def targets():
         from pyvc import libmodels, npfuncs, pdmodel
 
         _T = front.Targets(
-            ["ioos_qc.utils", "ioos_qc.qartod", "ioos_qc.argo", "ioos_qc.axds", "ioos_qc.config_creator.fx_parser", "ioos_qc.config_creator.config_creator"],
+            ["ioos_qc.utils", "ioos_qc.qartod", "ioos_qc.argo", "ioos_qc.axds", "ioos_qc.config_creator.fx_parser", "ioos_qc.config_creator.config_creator", "ioos_qc.results", "ioos_qc.config", "ioos_qc.streams", "ioos_qc.stores"],
             np_model=npfuncs.NP,
             pd_model=pdmodel.PD,
             builtins_model=bm.REBOUND,
@@ -388,6 +388,9 @@ def check_property(prop, tier="quick", seed=0):
 
 
 def main(argv):
+    import logging
+
+    logging.disable(logging.CRITICAL)  # the library logs skipped tests / duplicate columns; not part of the checks' output
     if len(argv) >= 2 and argv[0] == "--replay":
         return do_replay(argv[1])
     prop = argv[0]
